@@ -5,6 +5,7 @@ import (
 	"encoding/json"
 	"errors"
 	"fmt"
+	"math"
 	"strconv"
 	"strings"
 	"testing"
@@ -361,7 +362,7 @@ func TestCheck(t *testing.T) {
 	})
 
 	r.Phase(fmt.Sprintf("W: %d conventional special texts (empty, null, nil, 0000-00-00, now, today, ...) x rules x limits through every entry point", len(ref.ConventionalTexts)), func() {
-		for _, lim := range []int{0, 15, 3} {
+		for _, lim := range []int{0, 15, 3, math.MaxInt, math.MaxInt - 1, math.MaxInt - 63, 1 << 31, 1 << 32} {
 			restore := setLimit(lim)
 			r.Serial(func(w *vkit.W) {
 				for _, text := range ref.ConventionalTexts {
@@ -443,6 +444,43 @@ func TestCheck(t *testing.T) {
 				}
 			}
 		})
+	})
+
+	// Phase R: runes that fold, truncate or widen to a digit or a hyphen (among them the typographic hyphens and minus signs):
+	// inserted, put in place of one byte, and put in place of as many bytes as they are long.
+	r.Phase("R: confusable runes (incl. U+2010, U+2011, U+2212, full-width digits) inserted and substituted at every position of valid texts, limits 10, 15, 0", func() {
+		runes := ref.ConfusableRunes("0123456789-")
+		runes = append(runes, 0x2011, 0x2012, 0x2013, 0x2014, 0x00AD, 0xFE63, 0xFF0D, 0x2043)
+		bases := []string{"2024-02-29", "20240229", "12345-01-01", "0001-01-01"}
+		for _, lim := range []int{10, 15, 0} {
+			restore := setLimit(lim)
+			r.Parallel(int64(len(runes)), 8, func(w *vkit.W, lo, hi int64) {
+				for i := lo; i < hi; i++ {
+					rs := string(runes[i])
+					for _, base := range bases {
+						for pos := 0; pos <= len(base); pos++ {
+							texts := []string{base[:pos] + rs + base[pos:]}
+							if pos < len(base) {
+								texts = append(texts, base[:pos]+rs+base[pos+1:])
+								if base[pos] == '-' { // both separators at once
+									texts = append(texts, strings.ReplaceAll(base, "-", rs))
+								}
+							}
+							if pos+len(rs) <= len(base) {
+								texts = append(texts, base[:pos]+rs+base[pos+len(rs):])
+							}
+							for _, text := range texts {
+								for _, rule := range rules {
+									judge(Case{Text: vkit.B(text), Rule: rule, Limit: lim}, w)
+									w.EvalRandom(vkit.Hash64("R", text, strconv.Itoa(rule), strconv.Itoa(lim)), true)
+								}
+							}
+						}
+					}
+				}
+			})
+			restore()
+		}
 	})
 
 	// Phase D: rapid - random valid and near-valid texts under random configuration (shrinks to a minimal text).
